@@ -166,6 +166,28 @@ def run_on(fb, chk, tag=""):
                             if s[0] == "call" and s[1] == "mmap_region":
                                 mr = root_of(s[2][0])
                         same = gr is not None and mr is not None and gr == mr and (not roots or roots == {gr})
+                        # the file mapped for the region is the region's own file: for the table, the element of the file
+                        # list paired with the region by position (zip / same index); for the single region, the one file
+                        for s in subterms(a[0]):
+                            if s[0] == "call" and s[1] == "mmap_region" and len(s[2]) >= 2:
+                                from .c17 import _iter_item
+                                ri, fi = _iter_item(s[2][0]), _iter_item(s[2][1])
+                                fr, _c = peel(s[2][1])
+                                if name == "set_mem_table":
+                                    paired = ri is not None and fi is not None and ri[0] == fi[0] and ri[1][:1] == ("0",) and fi[1][:1] == ("1",) \
+                                        and "zip(" in show(ri[0])
+                                    # order-preserving alternatives: the front of the file list taken per region
+                                    # (Vec::remove(0) / a by-value iterator advanced once per region)
+                                    if not paired and fr[0] == "call" and fr[1] == "remove" and len(fr[2]) == 2 and fr[2][1][0] == "const" and fr[2][1][1] == 0:
+                                        paired = True
+                                    if not paired and fi is not None and ri is not None and fi[1] == () and "into_iter(files" in show(fi[0]).replace("&", ""):
+                                        paired = True
+                                else:
+                                    paired = fr[0] == "param" or (fr[0] in ("unwrap", "call") and "file" in show(fr))
+                                chk.check(paired, "M2", "%s%s:region-file" % (tag, name), "region i is mapped from file i",
+                                          "%s maps region %s from %s: the descriptor is not the one passed for this region (with several "
+                                          "regions backed by different files a region is mapped from another region's file)"
+                                          % (f.short, show(s[2][0])[:50], show(s[2][1])[:60]), f.loc(t["line"]))
                         chk.check(same, "M2", "%s%s:same-region" % (tag, name), "memory region (mmap, base address) and translation entry come from the same wire region",
                                   "memory region is built from %s / %s, translation entry from %s" % (show(mr) if mr else None, show(gr) if gr else None, [show(x) for x in roots]), f.loc(t["line"]))
     chk.check(nmap == 2, "M2", tag + "mapping-sites", "two construction sites (table, single region)", "expected 2 AddrMapping constructions, found %d" % nmap)
